@@ -270,6 +270,10 @@ func (vc *VC) oblige(st *State, kind, label string, pos token.Pos, goal Term, de
 	}
 	o := &Obligation{Name: name, Kind: kind, Func: fn, Where: vc.where(pos), Desc: desc, NDecl: len(vc.decls), NFacts: len(vc.facts), PC: st.pc, Goal: goal, vc: vc}
 	vc.Obls = append(vc.Obls, o)
+	if kind == "safety" || kind == "pre@call" || kind == "lemma-pre" {
+		// execution continues only if the check passed
+		vc.assume(st, goal)
+	}
 	return o
 }
 
